@@ -32,6 +32,7 @@ namespace {
 struct GClient { int c; std::string tr; bool alive = true; std::vector<JV> fetch_ids; bool owner_like = false; bool authed = false; };
 
 struct Gen {
+	double p_exact_size = 0.02; size_t elems_hint = 0;
 	Rng r; Plan p; uint64_t uid = 0; int next_client = 0; uint64_t idctr = 0, valctr = 0;
 	std::vector<GClient> cl;
 	std::vector<std::string> paths;
@@ -84,6 +85,8 @@ struct Gen {
 			JV a = JV::arr(); a.push(JV::num((double)valctr)); for (size_t i = 1; i < n; i++) a.push(JV::num((double)(i % 10)));
 			return a;
 		}
+		// numbers that a conversion to int cannot tell apart (all in [7,8), or all beyond INT_MAX): still different values
+		if (r.chance(0.12)) return JV::num(r.chance(0.7) ? 7.0 + (double)(valctr % 1021) / 1024.0 : 3000000000.0 + (double)valctr);
 		switch (r.below(8)) {
 		case 0: return JV::num((double)valctr);
 		case 1: return JV::str("s" + std::to_string(valctr));
@@ -126,6 +129,14 @@ struct Gen {
 		if (c.empty() || r.chance(0.1)) return pick_path();
 		return c[r.below(c.size())];
 	}
+	// two or three substrings of one path that all occur in it: in reverse order of occurrence, or overlapping each other
+	std::vector<std::string> parts_of(const std::string &b) {
+		std::vector<std::string> v;
+		size_t m = 1 + r.below(b.size() - 1);
+		if (r.chance(0.5)) { v.push_back(b.substr(m)); v.push_back(b.substr(0, m)); if (b.size() >= 3 && r.chance(0.3)) v.push_back(b.substr(m > 1 ? m - 1 : 0, 2)); }
+		else { v.push_back(b.substr(0, std::min(b.size(), m + 1))); v.push_back(b.substr(m > 0 ? m - 1 : 0)); if (r.chance(0.5)) std::swap(v[0], v[1]); }
+		return v;
+	}
 	JV rule() {
 		// strict rule shapes only (refused ones are generated by the C16 profile)
 		JV o = JV::obj();
@@ -136,7 +147,12 @@ struct Gen {
 			std::string base = pick_path();
 			std::string opnd = base;
 			if (!base.empty()) switch (r.below(5)) { case 0: opnd = base.substr(0, 1 + r.below(base.size())); break; case 1: opnd = base.substr(r.below(base.size())); break; case 2: for (auto &ch : opnd) ch = (char)toupper((unsigned char)ch); break; default: break; }
-			if (strcmp(m, "containsAllOf") == 0) { JV a = JV::arr(); a.push(JV::str(opnd)); if (r.chance(0.5)) a.push(JV::str(pick_path().substr(0, 1))); o.set(m, a); }
+			if (strcmp(m, "containsAllOf") == 0) {
+				JV a = JV::arr();
+				if (base.size() >= 2 && r.chance(0.4)) { for (auto &pt : parts_of(base)) a.push(JV::str(pt)); }   // parts of one path, not in the order in which they occur in it, or overlapping
+				else { a.push(JV::str(opnd)); if (r.chance(0.5)) a.push(JV::str(pick_path().substr(0, 1))); }
+				o.set(m, a);
+			}
 			else o.set(m, JV::str(opnd));
 		}
 		if (r.chance(0.3)) o.set("caseInsensitive", JV::boolean(r.chance(0.8)));
@@ -185,6 +201,7 @@ struct Gen {
 			if (strcmp(m, "containsAllOf") == 0) {
 				if (y < 0.08) { o.set(m, JV::str(adv_operand())); continue; }          // wrong operand type
 				JV a = JV::arr(); int k = 1 + (int)r.below(3); for (int j = 0; j < k; j++) a.push(y < 0.12 && j == k - 1 ? JV::num(3) : JV::str(adv_operand()));
+				if (y > 0.6) { std::string b2 = pick_path(); if (b2.size() >= 2) { a = JV::arr(); for (auto &pt : parts_of(b2)) a.push(JV::str(pt)); } }
 				o.set(m, a);
 			} else {
 				if (y < 0.08) { o.set(m, r.chance(0.5) ? JV::num(1) : (r.chance(0.5) ? JV::arr().push(JV::str("a")) : JV::null())); continue; }
@@ -311,6 +328,11 @@ struct Gen {
 			for (int i = 0; i < extra; i++) { JV pr = JV::obj(); pr.set("path", JV::str(pick_path())); pr.set("value", fresh_value()); bool ad = r.chance(0.5); arr.push(request(ad ? "add" : "change", pr, !ad || (g_variant.element_order >= 8 && !g_variant.add_local_only))); }
 			msg = arr;
 		}
+		// the same request as a text of exactly the maximum message size, or one byte less (blanks behind the opening bracket do not change its meaning)
+		if (r.chance(p_exact_size)) {
+			std::string t = msg.dump(); size_t want = (size_t)g_variant.max_message - (r.chance(0.6) ? 0 : 1);
+			if (t.size() + 1 < want && want <= 600 && valid_utf8(t)) { t.insert(1, std::string(want - t.size(), ' ')); o.a.set("text", JV::str(t)); finish_send(o); p.ops.push_back(o); return; }
+		}
 		o.a.set("msg", msg);
 		finish_send(o);
 		p.ops.push_back(o);
@@ -332,6 +354,13 @@ struct Gen {
 			std::vector<std::string> extra = paths_for_buckets(order, first, 1, 3, pre + "x");
 			for (auto &pth : fill) { JV pr = JV::obj(); pr.set("path", JV::str(pth)); pr.set("value", val()); emit(g->c, "add", pr); owner_of[pth] = g->c; is_state[pth] = true; }
 			for (size_t k = 0; k < extra.size() && k < 2; k++) { JV pr = JV::obj(); pr.set("path", JV::str(extra[k])); pr.set("value", val()); emit(g->c, "add", pr); emit(g->c, "add", pr); JV ch = JV::obj(); ch.set("path", JV::str(extra[k])); ch.set("value", val()); emit(g->c, "change", ch); owner_of[extra[k]] = g->c; is_state[extra[k]] = true; }
+			if (!extra.empty() && r.chance(0.5)) {
+				// the key that forced a neighbour out of its slot goes away again; every key of the neighbourhood (one of them sits in a new slot now) must still be found
+				{ JV pr = JV::obj(); pr.set("path", JV::str(extra[0])); emit(g->c, "remove", pr); owner_of.erase(extra[0]); }
+				for (auto &pth : fill) { JV ch = JV::obj(); ch.set("path", JV::str(pth)); ch.set("value", val()); emit(g->c, "change", ch); }
+				{ JV gp = JV::obj(); emit(g->c, "get", gp); }
+				{ JV pr = JV::obj(); pr.set("path", JV::str(extra[0])); pr.set("value", val()); emit(g->c, "add", pr); owner_of[extra[0]] = g->c; }
+			}
 			for (size_t k = 0; k < fill.size(); k += 5) { JV pr = JV::obj(); pr.set("path", JV::str(fill[k])); emit(g->c, "remove", pr); owner_of.erase(fill[k]); }
 			for (auto &e : extra) { JV ch = JV::obj(); ch.set("path", JV::str(e)); ch.set("value", val()); emit(g->c, "change", ch); }
 			return;
@@ -347,6 +376,38 @@ struct Gen {
 		{ JV pr = JV::obj(); pr.set("path", JV::str(same[mid])); pr.set("value", val()); emit(g->c, "add", pr); owner_of[same[mid]] = g->c; }   // free again: must be accepted
 		{ JV gp = JV::obj(); emit(g->c, "get", gp); }
 	}
+	// many complete requests of one connection arrive as one piece (a pipelining client, or a daemon that was busy): several read buffers full behind one readiness event
+	void pat_burst() {
+		std::vector<GClient *> cs; for (auto &c : cl) if (c.alive && c.tr != "ws") cs.push_back(&c);
+		if (cs.empty()) return;
+		GClient *g = cs[r.below(cs.size())];
+		size_t target = (size_t)g_variant.max_message * (4 + r.below(11)), total = 0; std::string bytes; int n = 0;
+		while (total < target && n < 400) {
+			JV pr = JV::obj(); std::string m;
+			switch (r.below(4)) {
+			case 0: m = request("info", JV::obj(), false).dump(); break;
+			case 1: pr.set("name", JV::str("burst-" + std::to_string(n))); m = request("config", pr, false).dump(); break;
+			case 2: { std::string pth = existing_path(true, false); pr.set("path", JV::str(pth)); pr.set("value", fresh_value()); m = request("change", pr, false).dump(); break; }
+			default: m = request("get", JV::obj(), false).dump(); if (elems_hint > 6) m = request("info", JV::obj(), false).dump(); break;
+			}
+			if ((int)m.size() > g_variant.max_message) continue;
+			bytes += raw_frame(m); total += m.size() + 4; n++;
+		}
+		Op o = mk("send", g->c); o.a.set("hex", JV::str(hexenc(bytes))); o.dt = pick_dt(); o.hold = false;
+		if (r.chance(0.3)) { JV sg = seg_for(bytes.size()); if (sg.t != JV::Null) { o.a.set("seg", sg); o.a.set("gap", JV::num(0)); } }
+		p.ops.push_back(o);
+	}
+	// a state that may only be fetched: nobody may set it, its owner included; the owner may still change it
+	void pat_fetchonly_owner() {
+		GClient *g = alive_client(); if (!g) return;
+		std::string pth = "fo/" + std::to_string(++idctr);
+		JV a = JV::obj(); a.set("path", JV::str(pth)); a.set("value", fresh_value()); a.set("fetchOnly", JV::boolean(true)); emit(g->c, "add", a);
+		owner_of[pth] = g->c; is_state[pth] = true; paths.push_back(pth);
+		JV st = JV::obj(); st.set("path", JV::str(pth)); st.set("value", fresh_value()); emit(g->c, "set", st);
+		GClient *o2 = alive_client(); if (o2) { JV s2 = JV::obj(); s2.set("path", JV::str(pth)); s2.set("value", fresh_value()); emit(o2->c, "set", s2); }
+		JV ch = JV::obj(); ch.set("path", JV::str(pth)); ch.set("value", fresh_value()); emit(g->c, "change", ch);
+		if (r.chance(0.5)) { JV gp = JV::obj(); emit(g->c, "get", gp); }
+	}
 	// a routed request is in flight, the owner gives up the element, the caller leaves, and only then the owner answers
 	void pat_owner_removes_then_caller_leaves() {
 		std::vector<int> ix; for (size_t i = 0; i < cl.size(); i++) if (cl[i].alive) ix.push_back((int)i);
@@ -355,15 +416,17 @@ struct Gen {
 		if (r.chance(0.6) && (int)cl.size() < max_clients + 2) { op_connect(); p.ops.back().hold = false; oi = (int)cl.size() - 1; }   // an owner that owns nothing else
 		GClient &ow = cl[(size_t)oi], &ca = cl[(size_t)ci];
 		std::string path = "late/" + std::to_string(++idctr);
-		{ Op po = mk("policy", ow.c); po.a.set("mode", JV::str("result")); po.a.set("delay", JV::num(r.chance(0.5) ? 2000000 : 800000000)); p.ops.push_back(po); }
+		bool never = r.chance(profile == "c14" ? 0.6 : 0.3);   // the owner never answers: the deadline passes after the caller has gone
+		{ Op po = mk("policy", ow.c); po.a.set("mode", JV::str(never ? "never" : "result")); po.a.set("delay", JV::num(r.chance(0.5) ? 2000000 : 800000000)); p.ops.push_back(po); }
 		bool state = r.chance(0.6);
-		{ JV pr = JV::obj(); pr.set("path", JV::str(path)); if (state) pr.set("value", JV::num(1)); emit(ow.c, "add", pr); }
+		{ JV pr = JV::obj(); pr.set("path", JV::str(path)); if (state) pr.set("value", JV::num(1)); if (never) pr.set("timeout", JV::num(r.chance(0.5) ? 0.25 : 1.5)); emit(ow.c, "add", pr); }
 		int nreq = 1 + (int)r.below(3);
 		for (int k = 0; k < nreq; k++) { JV pr = JV::obj(); pr.set("path", JV::str(path)); if (state) pr.set("value", fresh_value()); emit(ca.c, state ? "set" : "call", pr); }
 		{ JV pr = JV::obj(); pr.set("path", JV::str(path)); emit(ow.c, "remove", pr); }
 		{ Op c = mk("close", ca.c); c.a.set("how", JV::str(r.chance(0.7) ? "fin" : "hup")); c.dt = r.chance(0.5) ? 0 : 1000; p.ops.push_back(c); ca.alive = false; for (auto it = owner_of.begin(); it != owner_of.end();) if (it->second == ca.c) it = owner_of.erase(it); else ++it; }
 		if (r.chance(0.6)) op_connect();
-		{ Op a = mk("advance"); a.dt = 1000000000ULL; p.ops.push_back(a); }
+		{ Op a = mk("advance"); a.dt = never ? 6000000000ULL : 1000000000ULL; p.ops.push_back(a); }
+		if (never && r.chance(0.5)) { Op c = mk("close", ow.c); c.a.set("how", JV::str("fin")); c.dt = 1000; p.ops.push_back(c); ow.alive = false; for (auto it = owner_of.begin(); it != owner_of.end();) if (it->second == ow.c) it = owner_of.erase(it); else ++it; }
 	}
 	// a caller resets its connection at the instant the owner's answers arrive: the daemon finds the answer for the vanished caller
 	// undeliverable (EPIPE) before it has noticed the hang-up; the owner and the other caller must not be affected
@@ -459,6 +522,17 @@ struct Gen {
 			if (r.chance(0.2)) u.set("readonly", JV::boolean(true));
 			users.set(name, u);
 		}
+		if (r.chance(0.3)) {
+			// an account nobody can log into: the stored "hash" is a lock marker, empty, or only a salt - no password produces it. It holds every group.
+			static const char *lk[] = {"*", "", "!", "salt", "salt", "x"};
+			std::string name = "locked"; JV u = JV::obj();
+			u.set("locked", JV::str(lk[r.below(6)])); u.set("password", JV::str("never-" + std::to_string(r.below(1000000) + 1000000)));
+			static const char *hs[] = {"des", "md5", "sha512"}; u.set("hash", JV::str(hs[r.below(3)]));
+			JV all = JV::arr(); for (auto &gn : groups) all.push(JV::str(gn));
+			u.set("fetchGroups", all); u.set("setGroups", all); u.set("callGroups", all);
+			users.set(name, u);
+			user_pw[name] = r.chance(0.5) ? "" : "guess-" + std::to_string(r.below(100)); user_names.push_back(name); user_names.push_back(name);
+		}
 		JV c = JV::obj(); c.set("path", JV::str("/etc/cjet/passwd.json")); c.set("users", users);
 		if (r.chance(0.1)) c.set("pad_to", JV::num(4096));
 		hdr.put("creds", c);
@@ -482,9 +556,12 @@ struct Gen {
 		bool cuts = o.a.has("cut");
 		finish_send(o);
 		if (o.a.has("nomask") && g->tr != "ws") return;
+		// the last bytes of a message that never gets complete and the end of the stream are reported by one readiness event
+		bool together = cuts && r.chance(0.5);
+		if (together) { o.hold = true; if (r.chance(0.5)) { o.a.put("seg", JV()); o.a.put("gap", JV::num(0)); } }
 		p.ops.push_back(o);
 		if (cuts || r.chance(0.5)) {
-			Op c = mk("close", g->c); c.a.set("how", JV::str(r.chance(0.6) ? "fin" : "hup")); c.dt = pick_dt(); p.ops.push_back(c);
+			Op c = mk("close", g->c); c.a.set("how", JV::str(together || r.chance(0.6) ? "fin" : "hup")); c.dt = together ? 0 : pick_dt(); p.ops.push_back(c);
 		}
 		g->alive = false;
 		for (auto it = owner_of.begin(); it != owner_of.end();) if (it->second == g->c) it = owner_of.erase(it); else ++it;
@@ -508,7 +585,7 @@ struct Gen {
 };
 
 void base_paths(Gen &g) {
-	static const char *pool[] = {"a", "A", "a/b", "a/B", "ab", "abc", "b/a", "", "\xc3\xa9", "\xc3\xa9lan/a", "x/y/z", "X/Y/Z", "ba", "b", "abcabc", "a b", "p/\xe2\x82\xac", "q\"uote"};
+	static const char *pool[] = {"a", "A", "a/b", "a/B", "ab", "abc", "b/a", "", "\xc3\xa9", "\xc3\xa9lan/a", "x/y/z", "X/Y/Z", "ba", "b", "abcabc", "a b", "p/\xe2\x82\xac", "q\"uote", "aaab", "abab/c", "d/11/12"};   // the last three: an occurrence of a suffix starts inside a failed partial match of it
 	size_t n = 4 + g.r.below(9);
 	std::vector<std::string> all(pool, pool + sizeof pool / sizeof *pool);
 	for (size_t i = 0; i < n; i++) { std::string s = all[g.r.below(all.size())]; if (std::find(g.paths.begin(), g.paths.end(), s) == g.paths.end()) g.paths.push_back(s); }
@@ -647,7 +724,9 @@ Plan gen_base(const std::string &profile, uint64_t seed, const JV &opts) {
 		else if (x < 0.23 && (int)g.cl.size() < g.max_clients) g.op_connect();
 		else if (profile == "c05" && x < 0.30) g.op_violation_then_close();
 		else if ((profile == "c04" || profile == "c01") && x < 0.26 && i > 1 && g.p.ops.size() < 200) g.pat_collisions();
-		else if ((profile == "c03" || profile == "c05" || profile == "base") && x < 0.262 && i > 1) g.pat_owner_removes_then_caller_leaves();
+		else if ((profile == "c03" || profile == "c05" || profile == "base" || profile == "c14") && x < 0.262 && i > 1) g.pat_owner_removes_then_caller_leaves();
+		else if ((profile == "c04" || profile == "base") && x < 0.275 && i > 0) g.pat_fetchonly_owner();
+		else if ((profile == "base" || profile == "c02b" || profile == "c01" || profile == "c03") && x < 0.29 && x >= 0.275 && i > 0 && g.p.ops.size() < 300) g.pat_burst();
 		else if ((profile == "c14" || profile == "c03") && x < 0.30 && i > 1) g.pat_double_expiry();
 		else if ((profile == "c03" || profile == "c05" || profile == "c02b") && x < 0.315 && i > 2) g.pat_caller_reset_races_reply();
 		else if (profile == "c08" && x < 0.31 && i > 0) g.pat_rights();
@@ -955,7 +1034,8 @@ static HsParts valid_handshake(Rng &r) {
 	hs.push_back(vary_name(r, "Connection") + ": " + cv[r.below(5)]);
 	hs.push_back(vary_name(r, "Sec-WebSocket-Key") + ": " + h.key);
 	hs.push_back(vary_name(r, "Sec-WebSocket-Version") + ": 13");
-	switch (r.below(7)) {
+	switch (r.below(8)) {
+	case 5: hs.push_back(vary_name(r, "Sec-WebSocket-Protocol") + ": jet"); hs.push_back(vary_name(r, "Sec-WebSocket-Protocol") + (r.chance(0.5) ? ": chat" : ": superchat, chat")); break;   // several fields are one list (RFC 6455 11.3.4); the shuffle below decides which comes first
 	case 0: hs.push_back(vary_name(r, "Sec-WebSocket-Protocol") + ": chat, jet"); break;
 	case 1: hs.push_back(vary_name(r, "Sec-WebSocket-Protocol") + ": jet, chat"); break;
 	case 2: hs.push_back(vary_name(r, "Sec-WebSocket-Protocol") + ": chat"); hs.push_back(vary_name(r, "Sec-WebSocket-Protocol") + ": jet"); break;
@@ -1330,10 +1410,12 @@ Plan gen_c20(const std::string &profile, uint64_t seed, const JV &opts) {
 		if (u.ro) o.set("readonly", JV::boolean(true));
 		users.set(u.name, o); us.push_back(u);
 	}
-	JV c = JV::obj(); c.set("path", JV::str("/etc/cjet/passwd.json")); c.set("users", users);
+	// now and then the daemon is started the way an init script does it: in the background (it then moves to "/") and with a file name relative to where it was started
+	bool relative = r.chance(0.15);
+	JV c = JV::obj(); c.set("path", JV::str(relative ? "/srv/cjet/passwd.json" : "/etc/cjet/passwd.json")); c.set("users", users);
 	if (r.chance(0.1)) c.set("pad_to", JV::num(4096));
 	h.set("creds", c);
-	JV argv = JV::arr(); argv.push(JV::str("-f")); argv.push(JV::str("-p")); argv.push(JV::str("/etc/cjet/passwd.json")); h.set("argv", argv);
+	JV argv = JV::arr(); if (!relative) argv.push(JV::str("-f")); argv.push(JV::str("-p")); argv.push(JV::str(relative ? (r.chance(0.5) ? "passwd.json" : "./passwd.json") : "/etc/cjet/passwd.json")); h.set("argv", argv);
 	std::map<std::string, std::string> cur; for (auto &u : us) cur[u.name] = u.pw;
 	int nclients = 1 + (int)r.below(3);
 	std::vector<std::string> who(nclients);   // best-effort: which user each connection is authenticated as
@@ -1545,7 +1627,7 @@ namespace {
 
 // ------------------------------------------------------------------ c15: fixed corpus of short scenarios (every request type, both transports, handshake failure, routed requests, timeouts, disconnects, credentials)
 static const char *c15_profiles[] = {"base", "c01", "c03", "c05", "c08", "c12", "c13", "c16", "c14", "c04"};
-int c15_corpus_size() { return 46; }
+int c15_corpus_size() { return 48; }
 static Plan c15_handmade(int which) {
 	Plan p; p.seed = 0xC15000 + (uint64_t)which;
 	JV h = JV::obj(); h.set("mode", JV::str("exact")); h.set("fill", JV::num(which % 5)); JV argv = JV::arr(); argv.push(JV::str("-f")); h.set("argv", argv); h.set("end", JV::str("close")); p.hdr = h;
@@ -1600,6 +1682,31 @@ static Plan c15_handmade(int which) {
 	return p;
 }
 Plan c15_scenario(int idx) {
+	if (idx >= 46) {
+		// password changes under allocation failure: the first short authenticate/passwd plans of the c20 generator that contain a change by an
+		// authenticated peer followed by authentications with both passwords (the credential oracle of world_shadow.cpp needs those)
+		JV opts = JV::obj(); opts.set("prop", JV::str("C15"));
+		Plan best; int found = -1;
+		for (uint64_t t = 1; t < 4000 && found < idx - 46; t++) {
+			Plan p = gen_c20("c20", mix64(0xC15C20, t) >> 1, opts);
+			if (p.ops.size() < 5 || p.ops.size() > 12) continue;
+			int first_pw = -1, auth_before = 0, auth_after = 0;
+			for (size_t i = 0; i < p.ops.size(); i++) {
+				const JV *m = p.ops[i].a.get("msg"); if (!m) continue;
+				std::string me = m->gets("method");
+				if (me == "passwd" && first_pw < 0 && auth_before > 0) first_pw = (int)i;
+				if (me == "authenticate") { if (first_pw < 0) auth_before++; else auth_after++; }
+			}
+			if (first_pw < 0 || auth_after < 2) continue;
+			if (p.hdr.get("creds") && p.hdr.get("creds")->has("pad_to")) continue;
+			found++; best = p;
+		}
+		JV h = JV::obj();
+		for (auto &kv : best.hdr.o) if (kv.first != "canary_prop" && kv.first != "memprop" && kv.first != "baseprop" && kv.first != "relabel" && kv.first != "shuffle" && kv.first != "want_filelog") h.set(kv.first, kv.second);
+		h.set("canary_prop", JV::str("C15")); h.set("memprop", JV::str("C15")); h.set("baseprop", JV::str("C15")); h.set("relabel", JV::str("C15")); h.set("ledgerprop", JV::str("C15")); h.set("shadowprop", JV::str("C15"));
+		best.hdr = h; best.profile = "c15:" + std::to_string(idx);
+		return best;
+	}
 	if (idx >= 40) {
 		Plan best = c15_handmade(idx - 40);
 		JV h = best.hdr;
